@@ -89,6 +89,17 @@ Theorem C01_d4_loader_wf_partial : forall toks n C n',
 Proof. exact load_d4_count. Qed.
 Print Assumptions C01_d4_loader_wf_partial.
 
+(* ... and without the per-input check the statement is FALSE for the loader as it is (hence for
+   the code, by the exact correspondence: case "feature mentioned only in a dead branch" of run
+   ld4): a feature mentioned only below a dead branch is neither free nor kept.  The missing
+   side condition of a "conforming" file is that every mentioned feature is mentioned on a live
+   branch (d4's own output has it); the generator of the C01 input space enforces it. *)
+Theorem C01_d4_loader_wf_refuted : exists toks n C n',
+  d4_ok toks /\ load_d4 toks n = Some (C, n') /\ check_wf C n' = false /\
+  root_count C <> Z.of_nat (length (d4_models toks n')).
+Proof. exact loader_wf_refuted. Qed.
+Print Assumptions C01_d4_loader_wf_refuted.
+
 (* Non-vacuity: tests/data/small_ex_d4.nnf and a file with smoothing, a free feature, a false
    edge and a shared node satisfy d4_ok, load (to the vectors the implementation dumped), pass
    check_wf, and the count of the loaded vector is the truth-table count of the file. *)
